@@ -115,8 +115,8 @@ def r15_1_2(ctx: Ctx) -> None:
            "post-origin first on the reverse strand (otherwise extraction yields the two halves swapped)", form=form)
     label = ctx.fn(ORF, "create_feature_from_location")
     text = txt(label)
-    ok = "location.strand == -1" in text and "pre_origin, post_origin = (post_origin, pre_origin)" in text \
-        and "pre_origin.start + 1" in text and "post_origin.end" in text
+    cross = [n for n in walk_local(label) if isinstance(n, ast.If) and txt(n.test) == "len(location.parts) > 1"]
+    ok = bool(cross) and any(isinstance(n, (ast.If, ast.IfExp)) and "strand" in txt(n.test) for n in walk_local(cross[0]))
     ctx.ob("R15.5", ORF, label, "create_feature_from_location", "label uses strand-independent ends", ok,
            "the generated name of an origin-crossing ORF takes the pre-origin start and the post-origin end whatever the strand",
            form="")
